@@ -217,3 +217,86 @@ def r5c(ctx: Ctx) -> list[Ob]:
             else:
                 out.append(viol("R5c", c.qualname, inst, f"`{unparse(bad)[:70]}` answers without reading the registered index tensor self.{b}: whatever it uses instead was derived once in the constructor and cannot stand for arbitrary (unsorted, repeated) indices", f"{fwd.module.relpath}:{bad.lineno}"))
     return out
+
+
+# ------------------------------------------------------------------------------------------ R5d
+POLYDIFF = "cirkit.backend.torch.parameters.nodes.TorchPolynomialDifferential"
+
+
+def r5d(ctx: Ctx) -> list[Ob]:
+    """R5d -- each differentiation step multiplies the coefficient of x^n by n.
+
+    ``TorchPolynomialDifferential.forward`` is interpreted for order 1, 2 (3 in the thorough tier) on
+    an abstract coefficient tensor (F, K, dp1), with two value abstractions switched on: an integer
+    *ramp* (``arange(a, b)`` has first value a; a slice ``r[s:]`` of a ramp has first value a + s, a
+    negative s counted from the ramp's length) and the *origin* of a slice (``x[..., s:]`` starts at
+    exponent s of x).  Every product ``slice * ramp`` met on the way must pair exponent n with the
+    multiplier n (origin == first value, equal lengths), the result of a step is the coefficient vector
+    of the derivative (exponents from 0 again), and the number of such steps is the order.  A hoisted
+    ramp sliced by the loop counter (``arange[i:]``) multiplies the second step's coefficients by
+    2, 3, .. instead of 1, 2, .. -- same shapes, other numbers -- and is reported with the step."""
+    from ..dims import Dim
+    from ..shapes import ClassV, Frame, IntV, Interp, PathLimit, ShapeError, State, TensorV, TupleV, fresh_tensor, mkint
+    from .r4 import F, orders_of
+
+    out: list[Ob] = []
+    c = ctx.repo.cls(POLYDIFF)
+    fwd = ctx.repo.lookup(c, "forward")
+    init = ctx.repo.lookup(c, "__init__")
+    if fwd is None or init is None:
+        from ..model import AnalysisError
+
+        raise AnalysisError(f"vanished anchor: {POLYDIFF}.forward")
+    K, DP1 = Dim.sym("a0"), Dim.sym("a1")
+    for order in orders_of(ctx):
+        inst = f"exponent-ramp[order={order}]"
+        it = Interp(ctx.repo)
+        it.ramp_products = []  # type: ignore[attr-defined]
+        st = State()
+        try:
+            built = list(it.construct(ClassV(c), [], {"in_shape": TupleV((IntV(K), IntV(DP1))), "num_folds": IntV(F), "order": mkint(order)}, st, Frame(init, 0)))
+            n_paths = 0
+            for obj, s2 in built:
+                x = fresh_tensor(s2.norm_shape((F, K, DP1)))
+                for rv, s3 in it.call(fwd, [x], {}, s2, selfv=obj):
+                    # only the differentiating path (dp1 > order): the other one returns zeros
+                    if not isinstance(rv, TensorV) or s3.norm(rv.shape[-1]).as_int() == 1:
+                        continue
+                    n_paths += 1
+            prods = list(it.ramp_products)  # type: ignore[attr-defined]
+        except ShapeError as e:
+            out.append(unres("R5d", c.qualname, inst, f"forward not interpretable: {e.msg}", fwd.loc))
+            continue
+        except (PathLimit, RecursionError):
+            out.append(unres("R5d", c.qualname, inst, "path limit", fwd.loc))
+            continue
+        if not prods:
+            out.append(unres("R5d", c.qualname, inst, "no product of a coefficient slice with an integer ramp was met (another formulation of the derivative): no verdict", fwd.loc))
+            continue
+        bad = None
+        for k, (so, ro, node, la, lb) in enumerate(prods):
+            if so is None:
+                continue
+            if (so - ro).as_int() != 0:
+                bad = (k, so, ro, node)
+                break
+        loc = fwd.loc
+        if bad is not None:
+            k, so, ro, node = bad
+            ln = getattr(node, "lineno", None)
+            loc = f"{fwd.module.relpath}:{ln}" if ln else fwd.loc
+            out.append(
+                viol(
+                    "R5d",
+                    c.qualname,
+                    inst,
+                    f"multiplication #{k + 1} pairs the coefficients starting at exponent {so!r} with multipliers starting at {ro!r}: "
+                    f"d/dx a_n x^n = n a_n x^(n-1) needs the coefficient of x^n multiplied by n (the derivative of order {order} gets other numbers of the right shape)",
+                    loc,
+                )
+            )
+        elif len(prods) < order:
+            out.append(unres("R5d", c.qualname, inst, f"{len(prods)} exponent multiplications for order {order}: the formulation is not step-wise, no verdict", loc))
+        else:
+            out.append(ok("R5d", c.qualname, inst, f"{len(prods)} step(s): every coefficient of x^n is multiplied by n", loc))
+    return out
